@@ -10,7 +10,7 @@ sys.path.insert(0, os.path.dirname(os.path.dirname(os.path.abspath(__file__))))
 import ast
 import z3
 from pyvc import xreal as xr
-from pyvc.numexec import Num, Bool, Unsupported
+from pyvc.numexec import Num, Bool, Unsupported, ANALYSIS
 from pyvc.heap import (HeapExec, HPath, LoopSpec, Contract, Ref, NONE, XR, cls_of, x2xr, xr2x, RefV, SeqV, canon, sort_of)
 from pyvc.hlib import emit
 from pyvc.solve import Obl, static, undecided
@@ -337,7 +337,7 @@ def build(run):
     for fq, f in (("variable.OutputVariable.defuzzify", verify_defuzzify), ("variable.OutputVariable.clear", verify_clear), ("engine.Engine.process", C01.verify_process)):
         try:
             f(run)
-        except Unsupported as ex_:
+        except ANALYSIS as ex_:
             run.add(undecided(f"{fq}/subset", f"outside the verified subset: {ex_}", fn=fq, meta={"replay": rp}))
         except NotFound as ex_:
             run.add(static(f"{fq}/exists", False, f"function under contract not found: {ex_}", fn=fq))
